@@ -80,8 +80,10 @@ def instantiate(tmpl, mixed=False):
         for i in range(n):
             k = i % 10
             x = [f'0{2001 + i}', 3001.5 + i, f's{i}x', f'{4001 + i}', 5001 + i, f'{i}\u00b2', 0, '', -(6001 + i), f'x{i} y'][k]
+            if i % 7 == 3:
+                x = None        # a NULL among the values: bound like any other literal (alias and parentheses of the placeholder stay)
             vals.append(x)
-            lits.append("'" + x + "'" if isinstance(x, str) else str(x))
+            lits.append('NULL' if x is None else "'" + x + "'" if isinstance(x, str) else str(x))
     v = tmpl
     for lit in lits:
         v = v.replace('{P}', lit, 1)
@@ -140,6 +142,17 @@ def reference_steps(text_v):
     for st in pl.execute_steps([]):
         steps.append(st)
     return steps
+
+
+def same_null(x):
+    """A NULL bound at execute time is a Constant holding None, a NULL written in the text a NullConstant: the same literal."""
+    if isinstance(x, dict):
+        if x.get('__class__') == 'Constant' and isinstance(x.get('fields'), dict) and x['fields'].get('value') is None:
+            x = dict(x, __class__='NullConstant')
+        return {k: same_null(v) for k, v in x.items()}
+    if isinstance(x, (list, tuple)):
+        return type(x)(same_null(v) for v in x)
+    return x
 
 
 def strip_results(steps):
@@ -204,7 +217,7 @@ def run_history(text_q, text_v, vals, history):
             try:
                 got_b = strip_results(list(pl.execute_steps([777001])))
                 ref_b = strip_results(reference_steps(OTHER_V))
-                if monitors.struct(got_b) != monitors.struct(ref_b):
+                if same_null(monitors.struct(got_b)) != same_null(monitors.struct(ref_b)):
                     out.append(({'defect': 'later-statement-bound-differently', 'history': history},
                                 {'got': [repr(s)[:200] for s in got_b][:4], 'expected': [repr(s)[:200] for s in ref_b][:4]}))
             except (PlanningException, NotImplementedError) as e:
@@ -225,7 +238,7 @@ def run_history(text_q, text_v, vals, history):
     except (PlanningException, NotImplementedError) as e:
         out.append(({'defect': 'execute-plans-but-inline-rejected', 'history': history}, {'error': str(e)[:200]}))
         return 'checked', out
-    sa, sb = monitors.struct(got), monitors.struct(ref)
+    sa, sb = same_null(monitors.struct(got)), same_null(monitors.struct(ref))
     if sa != sb:
         # which value went where: look for the marker values in both
         from vf.props.c01 import first_diff
@@ -235,7 +248,7 @@ def run_history(text_q, text_v, vals, history):
     if history == 'second-execute':
         try:
             again = list(pl.execute_steps(list(vals)))
-            if monitors.struct(strip_results(again)) != sb:
+            if same_null(monitors.struct(strip_results(again))) != sb:
                 out.append(({'defect': 'second-execute-differs'}, {}))
         except PlanningException:
             pass
@@ -299,10 +312,10 @@ def run_shard(ctx):
                 else:
                     filled = putils.fill_query_params(parse_sql(text_q, 'mindsdb'), list(vals))
                     ref = parse_sql(text_v, 'mindsdb')
-                    if monitors.struct(filled) != monitors.struct(ref):
+                    if same_null(monitors.struct(filled)) != same_null(monitors.struct(ref)):
                         from vf.props.c01 import first_diff
                         acc.fail({'defect': 'fill_query_params-differs-from-inline', 'position': label},
-                                 {'text': text_q, 'filled': filled.to_string()[:300], 'inline': text_v, 'diff': first_diff(monitors.struct(ref), monitors.struct(filled))[:160]})
+                                 {'text': text_q, 'filled': filled.to_string()[:300], 'inline': text_v, 'diff': first_diff(same_null(monitors.struct(ref)), same_null(monitors.struct(filled)))[:160]})
             except Exception as e:
                 c = monitors.classify_exception(e)
                 if c['file'].startswith('mindsdb_sql'):
